@@ -1,4 +1,5 @@
 import Photon.Model.Chan
+import Photon.Properties.C07
 /-!
 # C09 — Go-style channel: a value reported sent is received exactly once
 
@@ -319,3 +320,90 @@ example : (run {} [.init 1, .callSend 1 10 none false, .retSend 1 true, .callSen
     .callRecv 3 none false, .retRecv 3 false 0]).isOk = true := by decide
 
 end Photon.Chan
+
+/-! ### several vCPUs: what the receivers of real concurrent runs got
+
+The buffered channel under real concurrency (`harness/mv_chan.cpp`) is validated by the acceptor
+`Photon.RingLog` of `Model/Ring.lean` (the same one C07 uses): what follows is about every history it accepts. -/
+namespace Photon.ChanMV
+open Photon.RingLog
+
+/-- the `(sender, sequence number)` pairs of the `got` events of a history -/
+def gots : List Ev → List (Nat × Nat)
+  | [] => []
+  | .got _ p seq :: es => (p, seq) :: gots es
+  | _ :: es => gots es
+
+structure Inv (s : St) (l : List (Nat × Nat)) : Prop where
+  mem : ∀ p seq, s.recvd p seq = true ↔ (p, seq) ∈ l
+  nodup : l.Nodup
+  count : s.count = l.length
+
+theorem run_inv (evs : List Ev) : ∀ (s s' : St) (l : List (Nat × Nat)), Inv s l → run s evs = .ok s' → Inv s' (l ++ gots evs) := by
+  induction evs with
+  | nil => intro s s' l hi h; simp only [run] at h; injection h with h; subst h; simpa [gots] using hi
+  | cons e es ih =>
+    intro s s' l hi h
+    simp only [run] at h
+    cases hs : Photon.RingLog.step s e with
+    | error m => rw [hs] at h; exact absurd h (by simp)
+    | ok s1 =>
+      rw [hs] at h
+      cases e with
+      | got c p seq =>
+        have hg := Photon.RingLog.C07_got s s1 c p seq hs
+        obtain ⟨_, hs1⟩ := Photon.RingLog.step_ok s s1 _ hs
+        have hnot : (p, seq) ∉ l := by
+          intro hm; have := (hi.mem p seq).2 hm; rw [hg.2.1] at this; exact absurd this (by simp)
+        have hi1 : Inv s1 (l ++ [(p, seq)]) := by
+          refine ⟨?_, ?_, ?_⟩
+          · intro a b
+            rw [hs1]; simp only [eff]
+            by_cases hab : a = p ∧ b = seq
+            · rw [if_pos hab]; simp [hab.1, hab.2]
+            · rw [if_neg hab, hi.mem a b]
+              constructor
+              · intro hm; exact List.mem_append_left _ hm
+              · intro hm
+                rcases List.mem_append.1 hm with hm | hm
+                · exact hm
+                · simp only [List.mem_singleton, Prod.mk.injEq] at hm; exact absurd hm hab
+          · rw [List.nodup_append]
+            refine ⟨hi.nodup, by simp, ?_⟩
+            intro a ha b hb
+            simp only [List.mem_singleton] at hb
+            subst hb
+            intro hab; subst hab; exact hnot ha
+          · rw [hg.2.2.2.2, hi.count]; simp
+        have := ih s1 s' _ hi1 h
+        simpa [gots, List.append_assoc] using this
+      | produced p n =>
+        obtain ⟨_, hs1⟩ := Photon.RingLog.step_ok s s1 _ hs
+        have hi1 : Inv s1 l := by rw [hs1]; exact ⟨hi.mem, hi.nodup, hi.count⟩
+        simpa [gots] using ih s1 s' l hi1 h
+      | maxavail n c =>
+        obtain ⟨_, hs1⟩ := Photon.RingLog.step_ok s s1 _ hs
+        have hi1 : Inv s1 l := by rw [hs1]; exact ⟨hi.mem, hi.nodup, hi.count⟩
+        simpa [gots] using ih s1 s' l hi1 h
+      | final =>
+        obtain ⟨_, hs1⟩ := Photon.RingLog.step_ok s s1 _ hs
+        have hi1 : Inv s1 l := by rw [hs1]; exact ⟨hi.mem, hi.nodup, hi.count⟩
+        simpa [gots] using ih s1 s' l hi1 h
+
+/-- **C09 (several vCPUs), exactly once.** In every accepted history of a concurrent run no `(sender, seq)` element is
+    received twice by anybody, and the acceptor's count is the number of elements received. -/
+theorem C09_mv_at_most_once (evs : List Ev) (s' : St) (h : run {} evs = .ok s') :
+    (gots evs).Nodup ∧ s'.count = (gots evs).length := by
+  have := run_inv evs {} s' [] ⟨by simp, by simp, rfl⟩ h
+  simpa using And.intro this.nodup this.count
+
+/-- **nothing lost**: a history accepted up to and including the final event has received as many (distinct) elements as
+    the senders' `send()` calls reported true -/
+theorem C09_mv_all_received (evs : List Ev) (s s' : St) (h : run {} evs = .ok s) (hf : Photon.RingLog.step s .final = .ok s') :
+    (gots evs).Nodup ∧ (gots evs).length = (s.prods.map s.produced).sum := by
+  have h1 := C09_mv_at_most_once evs s h
+  exact ⟨h1.1, by rw [← h1.2]; exact Photon.RingLog.C07_all_received s s' hf⟩
+
+example : (run {} [.produced 0 2, .produced 1 1, .got 0 0 0, .got 1 1 0, .got 0 0 1, .final]).isOk = true := by decide
+
+end Photon.ChanMV
